@@ -1,12 +1,13 @@
 (** C09 — the guarded miss path of [WideColumnCache::get] (model: FillGuard.v): proofs.
 
-    - [guard_before_refuted]: with the [fetch_add] BEFORE the entry operation of a write (the
-      code after commit 649e55c) a stale read is still installed: a load that starts between
-      the two halves of a write remembers a count that already includes the write, yet finds
-      no entry and reads the store without the write.
-    - [guard_ryw]: with the [fetch_add] inside the entry operation or after it, every answer
-      of every interleaving is the answer of a last-write-wins map (the statement of
-      [WideProof.wide_ryw], for all schedules of writers, loaders and background steps). *)
+    - [guard_ryw]: with the [fetch_add] after the entry operation of a write ([BumpAfter]: the
+      code as it is now, commit cea103e) or inside it ([BumpInside]), every answer of every
+      interleaving is the answer of a last-write-wins map (the statement of
+      [WideProof.wide_ryw], for all schedules of writers, loaders and background steps).
+    - [guard_before_refuted]: with the [fetch_add] BEFORE the entry operation ([BumpBefore]: the
+      ordering of commit 649e55c, since corrected) a stale read is still installed: a load that
+      starts between the two halves of a write remembers a count that already includes the
+      write, yet finds no entry and reads the store without the write. *)
 From QV Require Import Common.Prelude Cache.Wide Cache.WideProof Cache.FillGuard.
 Open Scope N_scope.
 
@@ -40,7 +41,7 @@ Proof.
   - exists 12%nat. eexists. eexists. split; [vm_compute; reflexivity|]. split; [reflexivity|split; reflexivity].
 Qed.
 
-(** The guard of the code as it is does not suffice. *)
+(** The ordering of commit 649e55c ([fetch_add] first) does not suffice. *)
 Theorem guard_before_refuted :
   exists ops s outs,
     grun grp16 BumpBefore ginit ops = Some (s, outs) /\ ordered [] (flat_map gseq_of ops) = true /\
@@ -49,6 +50,21 @@ Proof.
   exists guard_race_witness. eexists. eexists. split; [vm_compute; reflexivity|]. split; [reflexivity|].
   vm_compute. discriminate.
 Qed.
+(** evaluation with a symbolic grouping: decide the comparisons of closed numbers by
+    computation, those of equal terms by reflexivity *)
+Ltac ground_cmp :=
+  repeat match goal with
+  | |- context [N.eqb ?a ?b] =>
+      let v := eval vm_compute in (N.eqb a b) in
+      match v with true => change (N.eqb a b) with true | false => change (N.eqb a b) with false end
+  | |- context [Z.leb ?a ?b] =>
+      let v := eval vm_compute in (Z.leb a b) in
+      match v with true => change (Z.leb a b) with true | false => change (Z.leb a b) with false end
+  | |- context [Z.eqb ?a ?b] =>
+      let v := eval vm_compute in (Z.eqb a b) in
+      match v with true => change (Z.eqb a b) with true | false => change (Z.eqb a b) with false end
+  end.
+
 (** the same with one counter per key or one counter for all keys *)
 Theorem guard_before_refuted_any_grouping : forall grp : key -> N,
   exists ops s outs,
@@ -57,11 +73,9 @@ Theorem guard_before_refuted_any_grouping : forall grp : key -> N,
 Proof.
   intros grp. exists guard_race_witness.
   eexists. exists [None]. split; [|split; [reflexivity|split; reflexivity]].
-  unfold guard_race_witness. cbn [grun gstep write_of gbase ginit wcount wmid loads].
-  cbv [step write find_batch upd_batch add_write init pending b_epoch b_sub b_writes app N.eqb Pos.eqb
-       alookup bump count_of aset aremove write_guard cache_insert cache store notifyq next_epoch
-       mark_sub map fst mget notify_one has_key existsb del_key filter negb cache_unpin].
-  rewrite !N.eqb_refl. cbn. rewrite !N.eqb_refl. cbn. reflexivity.
+  unfold guard_race_witness.
+  repeat (progress (cbv -[N.eqb N.add Z.leb Z.eqb Z.add Z.sub]; ground_cmp; rewrite ?N.eqb_refl)).
+  reflexivity.
 Qed.
 
 (** * The invariant *)
@@ -105,7 +119,7 @@ Lemma phase_started wc wm pend m ph :
 Proof. destruct ph; cbn [phase_ok]; unfold guard_ok; tauto. Qed.
 
 (** the pending batches change, the writers of the key stay the same or go away *)
-Lemma guard_ok_pend wc wm pend pend' k c P :
+Lemma guard_ok_pend wc (wm : list (N * key)) pend pend' (k : key) c (P : Prop) :
   (forall bt', In bt' pend' -> wrote k bt' = true ->
                exists bt, In bt pend /\ b_epoch bt = b_epoch bt' /\ wrote k bt = true) ->
   guard_ok wc wm pend k c P -> guard_ok wc wm pend' k c P.
@@ -113,7 +127,7 @@ Proof.
   intros Hsub [Hle H]. split; [exact Hle|]. intros Hc. destruct (H Hc) as [Hcov HP]. split; [|exact HP].
   intros bt' Hin W. destruct (Hsub bt' Hin W) as (bt & Hin0 & He & W0). rewrite <- He. now apply Hcov.
 Qed.
-Lemma phase_ok_pend wc wm pend pend' m ph :
+Lemma phase_ok_pend wc (wm : list (N * key)) pend pend' m ph :
   (forall k bt', In bt' pend' -> wrote k bt' = true ->
                  exists bt, In bt pend /\ b_epoch bt = b_epoch bt' /\ wrote k bt = true) ->
   phase_ok wc wm pend m ph -> phase_ok wc wm pend' m ph.
@@ -122,14 +136,14 @@ Proof.
 Qed.
 
 (** a bump of the counter of [k]'s group ends every guard of this group *)
-Lemma guard_ok_bumped wc wm wm' pend pend' k k' c P P' :
+Lemma guard_ok_bumped wc (wm wm' : list (N * key)) pend pend' (k k' : key) c (P P' : Prop) :
   grp k' = grp k -> guard_ok wc wm pend k c P -> guard_ok (bump (grp k') wc) wm' pend' k c P'.
 Proof.
   intros Hg [Hle _]. rewrite Hg. split; rewrite count_bump_eq; [lia|]. intros Hc. lia.
 Qed.
 
 (** a write of [k0] into batch [b]: the three ways it can touch counter and [wmid] *)
-Lemma guard_ok_write wc wm wc' wm' l1 b0 l2 k0 w k c P P' :
+Lemma guard_ok_write wc (wm : list (N * key)) wc' (wm' : list (N * key)) l1 b0 l2 (k0 : key) w (k : key) c (P P' : Prop) :
   let u := match alookup k0 (b_writes b0) with None => true | Some _ => false end in
   let b0' := Batch (b_epoch b0) false ((k0, w) :: b_writes b0) in
   alookup (b_epoch b0) wm = None ->
@@ -190,7 +204,7 @@ Proof.
         destruct (b =? b_epoch b0) eqn:E; [|exact Hb]. apply N.eqb_eq in E. subst b. rewrite Hfree in Hb. discriminate.
 Qed.
 
-Lemma phase_ok_write wc wm wc' wm' l1 b0 l2 k0 w m ph :
+Lemma phase_ok_write wc (wm : list (N * key)) wc' (wm' : list (N * key)) l1 b0 l2 (k0 : key) w m ph :
   let u := match alookup k0 (b_writes b0) with None => true | Some _ => false end in
   let b0' := Batch (b_epoch b0) false ((k0, w) :: b_writes b0) in
   alookup (b_epoch b0) wm = None ->
@@ -209,7 +223,7 @@ Proof.
 Qed.
 
 (** the counting half of a write that is counted later *)
-Lemma guard_ok_bump_after wc wm pend b k0 k c P :
+Lemma guard_ok_bump_after wc (wm : list (N * key)) pend b (k0 k : key) c (P : Prop) :
   alookup b wm = Some k0 ->
   guard_ok wc wm pend k c P -> guard_ok (bump (grp k0) wc) (aremove b wm) pend k c P.
 Proof.
@@ -249,7 +263,7 @@ Proof.
   apply cnt_pending_zero. lia.
 Qed.
 
-Lemma write_guard_cases pos b k u wc wm wc' wm' :
+Lemma write_guard_cases pos b (k : key) u wc (wm : list (N * key)) wc' (wm' : list (N * key)) :
   pos <> BumpBefore -> write_guard grp pos b k u wc wm = Some (wc', wm') ->
   alookup b wm = None /\
   ((u = false /\ wc' = wc /\ wm' = wm) \/
@@ -336,7 +350,7 @@ Proof.
       clear Hs. destruct Hwm as [Hsubm (b' & Hst & ->)].
       destruct (inv_step _ _ _ _ _ _ HI Hst Ho) as [HI' Hout].
       assert (Hm' : spec_map m o' = m) by (destruct o'; try discriminate Hw; reflexivity).
-      split; [|exact Hout]. rewrite Hm'.
+      split; [|exact Hout]. rewrite Hm' in *.
       (* what the step does to the pending batches *)
       assert (Hpend : (forall bt, In bt (pending (gbase s)) -> b_sub bt = false ->
                          match o' with Submit b => b_epoch bt <> b | _ => True end ->
@@ -373,8 +387,8 @@ Proof.
       constructor; cbn [gbase wcount wmid loads].
       * exact HI'.
       * intros b1 k1 Hl. destruct (Hmid b1 k1 Hl) as (bt & Hin & He & Hs1 & W). exists bt. split; [|auto].
-        apply Hkeep; [exact Hin|exact Hs1|]. destruct o'; try exact I. intros ->. rewrite <- He in Hsubm. congruence.
-      * intros t ph Hl. eapply phase_ok_pend; [exact Hshrink|]. now apply Hld.
+        apply Hkeep; [exact Hin|exact Hs1|]. destruct o'; try exact I. intros Hb. rewrite <- He, Hb in Hl. congruence.
+      * intros t ph Hl. eapply phase_ok_pend; [exact Hshrink|]. exact (Hld t ph Hl).
   - (* the counting half *)
     destruct pos; [congruence|discriminate|].
     destruct (alookup b (wmid s)) as [k'|] eqn:Hb; [|discriminate].
@@ -395,7 +409,7 @@ Proof.
     constructor; cbn [gbase wcount wmid loads]; [exact HI|exact Hmid|].
     intros t' ph Hl. destruct (N.eq_dec t t') as [<-|Hne].
     + rewrite alookup_aset_eq in Hl. inversion Hl; subst. cbn [phase_ok]. lia.
-    + rewrite alookup_aset_ne in Hl by exact Hne. now apply Hld.
+    + rewrite alookup_aset_ne in Hl by exact Hne. exact (Hld _ _ Hl).
   - (* GMiss *)
     destruct (alookup t (loads s)) as [[k' c|k' c|k' c v]|] eqn:Ht; try discriminate.
     destruct (alookup k (cache (gbase s))) eqn:Ec; [discriminate|].
@@ -407,7 +421,7 @@ Proof.
       pose proof (Hld t _ Ht) as Hle. cbn [phase_ok] in Hle. split; [exact Hle|]. intros _. split; [|auto].
       pose proof (vacant_unwritten _ _ _ k HI Ec) as Hv. rewrite Forall_forall in Hv.
       intros bt Hin W. rewrite (Hv bt Hin) in W. discriminate.
-    + rewrite alookup_aset_ne in Hl by exact Hne. now apply Hld.
+    + rewrite alookup_aset_ne in Hl by exact Hne. exact (Hld _ _ Hl).
   - (* GRead *)
     destruct (alookup t (loads s)) as [[k' c|k' c|k' c v]|] eqn:Ht; try discriminate.
     destruct (k' =? k) eqn:E; [|discriminate]. apply N.eqb_eq in E. subst k'.
@@ -420,7 +434,7 @@ Proof.
       rewrite (inv_store _ _ _ HI k). rewrite pend_val_none; [reflexivity|].
       rewrite Forall_forall. intros bt Hin. destruct (wrote k bt) eqn:W; [|reflexivity].
       exfalso. exact (Hnm _ (Hcov bt Hin W)).
-    + rewrite alookup_aset_ne in Hl by exact Hne. now apply Hld.
+    + rewrite alookup_aset_ne in Hl by exact Hne. exact (Hld _ _ Hl).
   - (* GInstall *)
     destruct (alookup t (loads s)) as [[k' c|k' c|k' c v]|] eqn:Ht; try discriminate.
     destruct (k' =? k) eqn:E; [|discriminate]. apply N.eqb_eq in E. subst k'.
@@ -428,7 +442,7 @@ Proof.
     assert (Hothers : forall t' ph, alookup t' (aremove t (loads s)) = Some ph ->
                                     phase_ok (wcount s) (wmid s) (pending (gbase s)) m ph).
     { intros t' ph Hl. destruct (N.eq_dec t t') as [<-|Hne]; [rewrite alookup_aremove_eq in Hl; discriminate|].
-      rewrite alookup_aremove_ne in Hl by exact Hne. now apply Hld. }
+      rewrite alookup_aremove_ne in Hl by exact Hne. exact (Hld _ _ Hl). }
     destruct (alookup k (cache (gbase s))) as [e|] eqn:Ec.
     + (* occupied *)
       constructor; cbn [gbase wcount wmid loads pending]; [|exact Hmid|exact Hothers].
@@ -499,7 +513,7 @@ Proof.
       cbn. destruct s; cbn in *; subst; reflexivity.
     - destruct (gstep grp pos s0 o) as [[s1 out]|]; [|discriminate].
       destruct (grun grp pos s1 r) as [[s2 outs2]|] eqn:Hr2; [|discriminate]. inversion Hr; subst.
-      rewrite (IH _ _ eq_refl). destruct out; reflexivity. }
+      rewrite (IH _ _ Hr2). destruct out; reflexivity. }
   assert (Hf : flat_map gseq_of (ops ++ [GSeq (Get k)]) = flat_map gseq_of ops ++ [Get k]).
   { rewrite flat_map_app. reflexivity. }
   assert (Ho' : ordered [] (flat_map gseq_of (ops ++ [GSeq (Get k)])) = true).
@@ -510,3 +524,9 @@ Proof.
   pose proof (guard_ryw grp pos _ _ _ Hpos Hr' Ho') as Hout. rewrite Hf in Hout.
   rewrite <- Hout. now rewrite last_last.
 Qed.
+
+(** the code as it is now (commit cea103e: entry operation first, [fetch_add] second) *)
+Corollary guard_ryw_code : forall (grp : key -> N) ops s outs,
+  grun grp BumpAfter ginit ops = Some (s, outs) -> ordered [] (flat_map gseq_of ops) = true ->
+  outs = spec [] (flat_map gseq_of ops).
+Proof. intros grp ops s outs. apply guard_ryw. discriminate. Qed.
